@@ -2,6 +2,7 @@ INIT GenInit
 NEXT GenNext
 CONSTANTS
   SplitClose = FALSE
+  SplitRelease = FALSE
   WithForce = TRUE
 INVARIANTS Dump
 CHECK_DEADLOCK FALSE
